@@ -196,6 +196,15 @@ def phase_a(payload):
 
 
 # ------------------------------------------------------------------ phase B
+def json_ok(path):
+    """the record of the job is readable: params.json is a complete JSON document"""
+    try:
+        json.loads(path.read_text())
+        return True
+    except Exception:  # noqa
+        return False
+
+
 def snapshot(wd):
     jobs = wd / "jobs"
     tree = []
@@ -218,7 +227,7 @@ def snapshot(wd):
             elif e.is_dir():
                 p = e / "payload.txt"
                 tree.append(dict(k=k, mark=p.read_text() if p.is_file() else None,
-                                 params=(e / "params.json").is_file(),
+                                 params=(e / "params.json").is_file(), params_ok=json_ok(e / "params.json"),
                                  done=sorted(f.name[:-5] for f in e.iterdir()
                                              if f.name.endswith(".done") and f.exists())))
     return tree
@@ -370,20 +379,83 @@ class GlobTap:
         self.tj.load_job = self.orig_load
 
 
+class CrashTap:
+    """an interruption of the repair command at its n-th modification of the workspace (unlink, rename, replace, symlink,
+    creation of a directory, json.dump of a parameter file; n = 0: the first one): the atomic ones are made and the command
+    is stopped right after (OSError) - a kill -, json.dump writes half of the document and raises OSError(ENOSPC) - a full
+    device.  A chain of such calls walks through the interruption points one after the other.
+    n = None: nothing fails, the modifications are only counted."""
+
+    METHODS = ("unlink", "rename", "replace", "symlink_to", "mkdir")
+
+    def __init__(self, wd, n):
+        self.wd, self.n = str(wd.absolute()), n
+        self.count, self.crashed, self.at = 0, False, None
+
+    def hit(self, what):
+        ix = self.count
+        self.count += 1
+        if self.n is not None and ix == self.n:
+            self.crashed, self.at = True, what
+            return True
+        return False
+
+    def __enter__(self):
+        import errno
+        tap = self
+        self.orig = {m: getattr(pathlib.Path, m) for m in self.METHODS}
+        self.orig_dump = json.dump
+
+        def wrap(name, orig):
+            def f(path, *a, **kw):
+                inside = str(Path(path).absolute()).startswith(tap.wd)
+                if inside and not (name == "mkdir" and Path(path).is_dir()) and tap.hit(name):
+                    orig(path, *a, **kw)        # the modification is made, the command stops right after it
+                    raise OSError(errno.ENOSPC, f"injected interruption after {name}", str(path))
+                return orig(path, *a, **kw)
+            return f
+
+        for m, orig in self.orig.items():
+            setattr(pathlib.Path, m, wrap(m, orig))
+
+        def dump(obj, fp, *a, **kw):
+            name = getattr(fp, "name", "")
+            if isinstance(name, str) and os.path.abspath(name).startswith(tap.wd) and tap.hit("dump"):
+                text = json.dumps(obj, *a, **kw)
+                fp.write(text[:len(text) // 2])
+                fp.flush()
+                raise OSError(errno.ENOSPC, "injected failure in json.dump (half of the document written)", name)
+            return tap.orig_dump(obj, fp, *a, **kw)
+
+        json.dump = dump
+        return self
+
+    def __exit__(self, *a):
+        for m, orig in self.orig.items():
+            setattr(pathlib.Path, m, orig)
+        json.dump = self.orig_dump
+
+
 def do_fix(wd, op):
     """op: [cli-]fix | fixclean | list | listclean, optionally suffixed -rel: the workspace is then designated by a
     path relative to the current directory, as a user typing `experimaestro deprecated list --fix myworkdir` does"""
     from experimaestro.tools.jobs import fix_deprecated
-    base = op[:-4] if op.endswith("-rel") else op
+    crash_at = None
+    if "^" in op:                       # <op>^<n>: the n-th modification of the workspace fails (see CrashTap)
+        op0, _, n = op.partition("^")
+        crash_at = int(n)
+    else:
+        op0 = op
+    base = op0[:-4] if op0.endswith("-rel") else op0
     fix = base in ("fix", "fixclean", "cli-fix", "cli-fixclean")
     cleanup = base in ("fixclean", "listclean", "cli-fixclean", "cli-listclean")
     cwd = os.getcwd()
     target = wd
-    if op.endswith("-rel"):
+    if op0.endswith("-rel"):
         os.chdir(wd.parent)
         target = Path(wd.name)
     try:
-        with GlobTap(wd / "jobs") as tap:
+        with GlobTap(wd / "jobs") as tap, CrashTap(wd, crash_at) as crash:
             if base.startswith("cli-"):
                 from click.testing import CliRunner
                 from experimaestro.cli import cli
@@ -399,7 +471,8 @@ def do_fix(wd, op):
     finally:
         os.chdir(cwd)
     logging.disable(logging.CRITICAL)
-    return dict(op=op, fix=fix, cleanup=cleanup, loops=tap.loops, examined=tap.examined, error=err)
+    return dict(op=op, fix=fix, cleanup=cleanup, loops=tap.loops, examined=tap.examined, error=err,
+                crashed=crash.crashed, crash_at=crash.at, modifications=crash.count)
 
 
 def recompute(params_path):
